@@ -153,11 +153,39 @@ func (m *Monitor) Step(ln int, op, got string) *Hit {
 			}
 			return hit(classify(kind), want)
 		}
-	case "iter":
+	case "iter", "itera":
 		if !strings.HasPrefix(got, "list ") {
 			return hit("iter-failed", "list …")
 		}
 		body := strings.TrimPrefix(got, "list ")
+		// IterateRangeAll is complete: every key of the range that a read would find is listed,
+		// whether it is in the tree or only pending in the block or in the session (a metered
+		// state may skip keys whose read it refuses). IterateRange lists keys of the tree only.
+		if t[0] == "itera" && !m.metered {
+			listed := map[string]bool{}
+			if body != "-" {
+				for _, it := range strings.Split(body, ",") {
+					listed[strings.SplitN(it, "=", 2)[0]] = true
+				}
+			}
+			all := map[string]bool{}
+			for k := range m.tree {
+				all[k] = true
+			}
+			for _, lay := range []map[string]*string{m.sess, m.block} {
+				for k := range lay {
+					all[k] = true
+				}
+			}
+			for k := range all {
+				if t[1] != "~" && k < t[1] || t[2] != "~" && k >= t[2] {
+					continue
+				}
+				if _, ok, _ := m.cur(k); ok && !listed[k] {
+					return hit("iterall-misses-visible-key", "key "+k+" listed")
+				}
+			}
+		}
 		if body == "-" {
 			return nil
 		}
